@@ -72,6 +72,10 @@ pub struct Limits {
     pub max_wall: Duration,
     pub restoration_check: bool,
     pub obs_cap: usize,
+    /// once a violation has been found, stop as soon as this many states exist (a broken
+    /// implementation can have a vastly larger - even unbounded - state space than the correct
+    /// one; the verdict is already known and the shallowest traces have been seen)
+    pub states_after_violation: usize,
 }
 
 impl Default for Limits {
@@ -81,6 +85,7 @@ impl Default for Limits {
             max_wall: Duration::from_secs(1500),
             restoration_check: true,
             obs_cap: 2_000_000,
+            states_after_violation: 300_000,
         }
     }
 }
@@ -488,6 +493,13 @@ pub fn explore<S: System>(sys: &S, limits: &Limits) -> Outcome<S> {
                 cap = Some(format!(
                     "state cap {} hit at BFS depth {} (levels below {} fully expanded)",
                     limits.max_states, depth, depth
+                ));
+                break 'levels;
+            }
+            if !found.is_empty() && nodes.len() > limits.states_after_violation {
+                cap = Some(format!(
+                    "stopped at {} states after a violation had been found (BFS depth {}; levels below {} fully expanded)",
+                    nodes.len(), depth, depth
                 ));
                 break 'levels;
             }
